@@ -229,7 +229,11 @@ def _diff(
                 ignore=ignore,
             )
         except FileNotFoundError:
-            pass
+            # NOTE: only a missing path means "nothing there". If something
+            # below it can't be read (e.g. a dangling symlink), we don't know
+            # what is there and must not overwrite it as if it was new.
+            if fs.exists(path):
+                raise
 
     diff = odiff(old, obj, cache)
     if relink:
